@@ -32,6 +32,8 @@ Inductive sreply :=
 | RPut (committed : bool) (cur : option D) | RDel (deleted : bool) (cur : option D).
 
 Definition tree := gmap bytes bytes.
+(** the content a path names (what ONE open of it sees) *)
+Definition file_at (t : tree) (p : bytes) : option bytes := t !! p.
 
 Definition control_dir : bytes := [46; 99; 111; 112; 105; 97]%Z.     (* ".copia" *)
 Definition hidden (p : bytes) : bool :=
